@@ -456,6 +456,8 @@ def gen_case(rng):
         case["items"] = [spell(rng, rand_cube(rng, 2), base["kwargs"]["platform"], "Address") for _ in range(rng.randint(1, 3))]
     if cls in ("Ace", "Acl", "AceGroup") and ("object-group" in base["text"] or "addrgroup" in base["text"]):
         case["attach_members"] = True
+    if cls in ("Ace", "Acl", "AceGroup", "Address", "AddressAg") and rng.random() < 0.3:
+        case["kwargs"] = dict(case["kwargs"], max_ncwb=rng.choice([20, 30, 17]))  # a non-default limit must survive rebuilds
     menu = MUTATIONS.get(cls, [])
     case["mutations"] = [rng.choice(menu) for _ in range(rng.randint(1, 4))] if menu else []
     if cls in ("Acl", "AceGroup", "AddrGroup") and rng.random() < 0.3:
